@@ -1,0 +1,85 @@
+//go:build verif
+
+package types
+
+// Contracts for the deductive checker in /verif (comment-only; compiled only with -tags verif).
+// C12, message layer (sub-agent ACsub2): signers and stateless validation of the UC DAO messages.
+//
+// Property C12: "Funding credits the depositor with exactly what was deposited, and an ownership transfer ... moves exactly the
+// stated amount from the signer's own balance to the recipient". The message servers (x/ucdao/keeper/zz_contracts_c12_verif.go)
+// debit addr_of_bech32(msg.Depositor) / addr_of_bech32(msg.Owner); the ante handler verifies the signature of GetSigners()[0].
+// So the account that pays must be exactly the one signer: that is what the GetSigners contracts below say. ValidateBasic
+// returns nil EXACTLY for the messages whose addresses parse (so the handler's MustAccAddressFromBech32 cannot panic and
+// GetSigners names the debited account), whose coins are valid and whose ratio lies in (0, 1].
+//
+// GetSigners of this module calls AccAddressFromBech32 and DROPS the error (it does not use the Must variant): it never panics
+// (no `maypanic`: every safety obligation is proved without precondition); for a message that was not validated the one signer
+// is the empty address (assumption A-bech32-err in /verif/specs/c12s/70_bech32_err.spec), never some other account.
+// Lib specs: /verif/specs/c09m_pre/45_bech32.spec (bech32_ok, addr_of_bech32), /verif/specs/c12, /verif/specs/c12s.
+
+/*@
+alias DaoMsgFund github.com/haqq-network/haqq/x/ucdao/types.MsgFund
+alias DaoMsgFundLegacy github.com/haqq-network/haqq/x/ucdao/types.MsgFundLegacy
+alias DaoMsgTransfer github.com/haqq-network/haqq/x/ucdao/types.MsgTransferOwnership
+alias DaoMsgTransferRatio github.com/haqq-network/haqq/x/ucdao/types.MsgTransferOwnershipWithRatio
+alias DaoMsgTransferAmount github.com/haqq-network/haqq/x/ucdao/types.MsgTransferOwnershipWithAmount
+
+// what ValidateBasic() == nil means, message by message
+specfunc FundValid(m DaoMsgFund) bool = coins_isvalid(m.Amount) && bech32_ok(m.Depositor)
+specfunc FundLegacyValid(m DaoMsgFundLegacy) bool = coins_isvalid(m.Amount) && bech32_ok(m.Depositor)
+specfunc TransferValid(m DaoMsgTransfer) bool = bech32_ok(m.Owner) && bech32_ok(m.NewOwner)
+specfunc TransferRatioValid(m DaoMsgTransferRatio) bool = bech32_ok(m.Owner) && bech32_ok(m.NewOwner) && m.Ratio > 0 && m.Ratio <= dec_one()
+specfunc TransferAmountValid(m DaoMsgTransferAmount) bool = bech32_ok(m.Owner) && bech32_ok(m.NewOwner) && coins_isvalid(m.Amount)
+
+// ------------------------------------------------------------------ ValidateBasic: nil exactly for the valid messages
+// (the four contracts of tag c12 give one direction for the amounts / the ratio only; extended here to the full
+// characterisation including the addresses; MsgFundLegacy was not under contract)
+extend func (MsgFund).ValidateBasic
+    ensures c12s_iff: (result == nil) == FundValid(msg)
+    ensures c12s_depositor: result == nil ==> bech32_ok(msg.Depositor)
+func (MsgFundLegacy).ValidateBasic
+    ensures c12s_iff: (result == nil) == FundLegacyValid(msg)
+    ensures c12s_depositor: result == nil ==> bech32_ok(msg.Depositor)
+    ensures c12s_valid: result == nil ==> coins_isvalid(msg.Amount)
+extend func (MsgTransferOwnership).ValidateBasic
+    ensures c12s_iff: (result == nil) == TransferValid(msg)
+    ensures c12s_owner: result == nil ==> bech32_ok(msg.Owner) && bech32_ok(msg.NewOwner)
+extend func (MsgTransferOwnershipWithRatio).ValidateBasic
+    ensures c12s_iff: (result == nil) == TransferRatioValid(msg)
+    ensures c12s_owner: result == nil ==> bech32_ok(msg.Owner) && bech32_ok(msg.NewOwner)
+extend func (MsgTransferOwnershipWithAmount).ValidateBasic
+    ensures c12s_iff: (result == nil) == TransferAmountValid(msg)
+    ensures c12s_owner: result == nil ==> bech32_ok(msg.Owner) && bech32_ok(msg.NewOwner)
+
+// ------------------------------------------------------------------ GetSigners: exactly one signer, the account that is debited
+// `one`: always exactly one signer. `signer`: when the address parses it is the account the handler debits
+// (addr_of_bech32 = sdk.MustAccAddressFromBech32, the very term of the msgServer contracts). `validated`: the same under the
+// hypothesis "ValidateBasic() == nil" (the two are linked by the c12s_iff clauses above), and then the signer is not the empty
+// address. `unvalidated`: otherwise the signer is the empty address.
+func (MsgFund).GetSigners
+    ensures one: len(result) == 1
+    ensures signer: bech32_ok(msg.Depositor) ==> result[0] == addr_of_bech32(msg.Depositor)
+    ensures validated: FundValid(msg) ==> len(result) == 1 && result[0] == addr_of_bech32(msg.Depositor) && !addr_empty(result[0])
+    ensures unvalidated: !bech32_ok(msg.Depositor) ==> addr_empty(result[0])
+func (MsgFundLegacy).GetSigners
+    ensures one: len(result) == 1
+    ensures signer: bech32_ok(msg.Depositor) ==> result[0] == addr_of_bech32(msg.Depositor)
+    ensures validated: FundLegacyValid(msg) ==> len(result) == 1 && result[0] == addr_of_bech32(msg.Depositor) && !addr_empty(result[0])
+    ensures unvalidated: !bech32_ok(msg.Depositor) ==> addr_empty(result[0])
+// the three transfers: the signer is the OWNER whose share moves, never the recipient
+func (MsgTransferOwnership).GetSigners
+    ensures one: len(result) == 1
+    ensures signer: bech32_ok(msg.Owner) ==> result[0] == addr_of_bech32(msg.Owner)
+    ensures validated: TransferValid(msg) ==> len(result) == 1 && result[0] == addr_of_bech32(msg.Owner) && !addr_empty(result[0])
+    ensures unvalidated: !bech32_ok(msg.Owner) ==> addr_empty(result[0])
+func (MsgTransferOwnershipWithRatio).GetSigners
+    ensures one: len(result) == 1
+    ensures signer: bech32_ok(msg.Owner) ==> result[0] == addr_of_bech32(msg.Owner)
+    ensures validated: TransferRatioValid(msg) ==> len(result) == 1 && result[0] == addr_of_bech32(msg.Owner) && !addr_empty(result[0])
+    ensures unvalidated: !bech32_ok(msg.Owner) ==> addr_empty(result[0])
+func (MsgTransferOwnershipWithAmount).GetSigners
+    ensures one: len(result) == 1
+    ensures signer: bech32_ok(msg.Owner) ==> result[0] == addr_of_bech32(msg.Owner)
+    ensures validated: TransferAmountValid(msg) ==> len(result) == 1 && result[0] == addr_of_bech32(msg.Owner) && !addr_empty(result[0])
+    ensures unvalidated: !bech32_ok(msg.Owner) ==> addr_empty(result[0])
+@*/
